@@ -361,7 +361,8 @@ pub fn batch(property: &str, templates: &[Template], base_seed: u64, runs: u64, 
                         Verdict3::Pass => {}
                         Verdict3::Known(fs) => {
                             e.1 += 1;
-                            if local.known_examples.len() < 40 {
+                            let skip = std::env::var("SIM_EXAMPLE_SKIP").ok();
+                            if local.known_examples.len() < 40 && !(skip.is_some() && fs.len() == 1 && Some(&fs[0]) == skip.as_ref()) {
                                 local.known_examples.push((r.idx, r.scenario.clone(), fs.clone(), r.out.primary().unwrap().clone()));
                             }
                             for f in fs {
